@@ -170,7 +170,10 @@ def c11_strata(tier: str) -> List[Stratum]:
 
 
 def c13_strata(tier: str) -> List[Stratum]:
-    return [Stratum("grid", scale(tier, 40000, 1500000), lambda r, i: cg.gen_c13(r))]
+    return [Stratum("grid", scale(tier, 40000, 1500000), lambda r, i: cg.gen_c13(r)),
+            Stratum("ticking-clock", scale(tier, 6000, 300000), lambda r, i: cg.gen_c13(r, ticking=True),
+                    note="the wall clock advances on every read (1 ms, 0.4 s or 30 s per read), starting a few reads "
+                         "before a local midnight: code that reads the clock twice may see two days")]
 
 
 def build() -> Dict[str, Prop]:
@@ -182,7 +185,8 @@ def build() -> Dict[str, Prop]:
     P["C13"] = Prop("C13", "exploration", co.judge_c13, c13_strata,
                     "seeded (zone, instant) x all 128 day sets x start minutes around now/00:00/23:59, clock steps and jumps "
                     "between queries; text parsed and compared with a zoneinfo-based reference",
-                    REAL_CLOCK, ["probe:local-weekday-differs-from-utc", "probe:full-week-ahead", "probe:sunday-to-monday"])
+                    REAL_CLOCK, ["probe:local-weekday-differs-from-utc", "probe:full-week-ahead", "probe:sunday-to-monday",
+                                 "probe:clock-crossed-midnight-during-call"])
     P["C05"] = Prop("C05", "exploration", uo.judge_c05, c05_strata,
                     "seeded device states of all 9 types encoded by the reference broadcast encoder (checked against the "
                     "real captures), sent through the fake network with delay/dup/reorder/drop to a running bridge; every "
